@@ -306,7 +306,7 @@ namespace Fc
 namespace C04
 open Mon Fix
 
-theorem sim_joinSlice (n : Nat) (m : Mode) : Sim joinSlice m (Inv true n) (J true n) where
+theorem sim_joinSlice (n : Nat) (m : Mode) : Sim joinSlice m Sim.anyRes (Inv true n) (J true n) where
   fireEv := fun s t e he h => inv_fireEv e he h
   pre := by
     intro s t w o hpre h
@@ -342,7 +342,7 @@ theorem sim_joinSlice (n : Nat) (m : Mode) : Sim joinSlice m (Inv true n) (J tru
     intro s t i rest _ hJ
     exact ⟨hJ.1, hJ.2.1, hJ.2.2.1, fun j hj => hJ.2.2.2 j (List.mem_cons_of_mem _ hj)⟩
   goOn := by
-    intro s t i rest wk l r hJ hel hr hl hex
+    intro s t i rest wk l r hJ hel hr _ hl hex
     obtain ⟨h, hd, h0, hlt⟩ := hJ
     have hi : i < n := hlt i (List.mem_cons_self ..)
     have hp : s.st i = .pending := by simpa [joinSlice] using hel
@@ -355,7 +355,7 @@ theorem sim_joinSlice (n : Nat) (m : Mode) : Sim joinSlice m (Inv true n) (J tru
     | fin => exact ⟨keep_ok h hd i i wk l _ hl (by simp) hp, hd, h0, hrest⟩
     | panic => exact absurd rfl hr
   goExit := by
-    intro s t i rest wk l r o hJ hel hr hl hex
+    intro s t i rest wk l r o hJ hel hr _ hl hex
     cases r <;> simp [joinSlice, Fix.keep] at hex
   panic := by
     intro s t i rest wk l hJ hel hl
@@ -383,7 +383,7 @@ theorem sim_joinSlice (n : Nat) (m : Mode) : Sim joinSlice m (Inv true n) (J tru
     simp only [joinSlice, Fix.dropStates, List.mem_append, List.mem_map] at he
     rcases he with ⟨_, _, rfl⟩ | ⟨_, _, rfl⟩ <;> rfl
 
-theorem sim_joinTuple (n : Nat) (m : Mode) : Sim joinTuple m (Inv false n) (J false n) where
+theorem sim_joinTuple (n : Nat) (m : Mode) : Sim joinTuple m Sim.anyRes (Inv false n) (J false n) where
   fireEv := fun s t e he h => inv_fireEv e he h
   pre := by
     intro s t w o hpre h
@@ -425,7 +425,7 @@ theorem sim_joinTuple (n : Nat) (m : Mode) : Sim joinTuple m (Inv false n) (J fa
     intro s t i rest _ hJ
     exact ⟨hJ.1, hJ.2.1, hJ.2.2.1, fun j hj => hJ.2.2.2 j (List.mem_cons_of_mem _ hj)⟩
   goOn := by
-    intro s t i rest wk l r hJ hel hr hl hex
+    intro s t i rest wk l r hJ hel hr _ hl hex
     obtain ⟨h, hd, h0, hlt⟩ := hJ
     have hi : i < n := hlt i (List.mem_cons_self ..)
     have hp : s.st i = .pending := by
@@ -449,7 +449,7 @@ theorem sim_joinTuple (n : Nat) (m : Mode) : Sim joinTuple m (Inv false n) (J fa
     | fin => exact ⟨keep_ok h hd i i wk l _ hl (by simp) hp, hd, h0, hrest⟩
     | panic => exact absurd rfl hr
   goExit := by
-    intro s t i rest wk l r o hJ hel hr hl hex
+    intro s t i rest wk l r o hJ hel hr _ hl hex
     obtain ⟨h, hd, h0, hlt⟩ := hJ
     have hi : i < n := hlt i (List.mem_cons_self ..)
     have hp : s.st i = .pending := by
